@@ -51,7 +51,7 @@ def canon_capacity(txt, selfn='self'):
     return txt
 
 
-def same_capacity(run, model, f, track, capacity):
+def same_capacity(run, model, f, track, capacity, own_limit=False):
     """the tracking deque is bounded (maxlen): an append to a full deque silently evicts the oldest record - a source that may still be running and can then no longer
     be found by cancel_event/cancel_events/stop.  The admission test prevents that only if the limit it compares with is the deque's own bound for *every*
     object, also of a subclass that overrides the class constant."""
@@ -67,6 +67,15 @@ def same_capacity(run, model, f, track, capacity):
     if not makers:
         raise AnalysisError('where %s is created was not found' % track)
     cap_txt = canon_capacity(norm(resolve_module_names(model, f.module, capacity)))
+    # whose limit: the maximum belongs to the object (its class may set its own QUEUE_SIZE, as the processor's own queues honour through self.__class__); a limit read from a
+    # named class is that class's number for every subclass
+    parts = cap_txt.split('.')
+    if own_limit and len(parts) == 2 and parts[0] in model.classes and parts[1] in model.classes[parts[0]].consts and cls is not None and model.classes[parts[0]] in model.mro(cls):
+        run.rule('ADMIT.own-limit', 'the admission limit is read through the object (self.__class__.X / type(self).X / self.X / the deque\'s maxlen), not from a named base class')
+        run.inst('ADMIT.own-limit', f, 'admission limit %s is the object\'s own' % cap_txt, False,
+                 'the admission test compares len(%s) with %s, the constant of the named class %s: an active object whose class sets its own %s (lower) is not refused when it already '
+                 'tracks its maximum number of timed sources - the post that had to raise ActiveObjectOutOfPostedEventResources is admitted and its source fires'
+                 % (track, cap_txt, parts[0], parts[1]), node=capacity, obligation=True)
     for m, n in makers:
         v = n.value
         if not (isinstance(v, ast.Call) and norm(v.func).split('.')[-1] == 'deque'):
@@ -140,7 +149,7 @@ def check(run, model, tier):
                                 track = d
                                 capacity = b_
     if track is not None and capacity is not None:
-        same_capacity(run, model, f, track, capacity)
+        same_capacity(run, model, f, track, capacity, own_limit=True)
     if track is None:
         # the tracking deque located independently: the self attribute that receives the PostedEvent record
         recs = [c for c in shallow_calls(f.node) if isinstance(c.func, ast.Attribute) and c.func.attr in ('append', 'appendleft') and (dotted(c.func.value) or '').startswith('self.')
